@@ -5,6 +5,7 @@ import (
 	"encoding/hex"
 	"regexp"
 	"strings"
+	"verif/harness/host"
 )
 
 // Delta-minimisation of program-shaped witnesses (DESIGN.md §2.7): remove statements and blocks of
@@ -57,16 +58,29 @@ var declRe = regexp.MustCompile(`^\s*(let|var)\s+([a-z]+[0-9]+)\b`)
 // block) of the body that mentions the declared name; the name is also dropped from a final
 // `return [...]` list.
 func removeWithUses(lines []string, i, hi int, name string) []string {
-	use := regexp.MustCompile(`\b` + regexp.QuoteMeta(name) + `\b`)
+	// names whose declarations are being removed (grows transitively: a removed statement that
+	// itself declares a name, e.g. `let q2 <- attach A() to <-q1`, takes its uses along too)
+	names := []string{name}
+	uses := func(l string) bool {
+		for _, n := range names {
+			if regexp.MustCompile(`\b` + regexp.QuoteMeta(n) + `\b`).MatchString(l) {
+				return true
+			}
+		}
+		return false
+	}
 	out := append([]string{}, lines[:i]...)
 	for j := i + 1; j < len(lines); j++ {
-		if j >= hi || !use.MatchString(lines[j]) {
+		if j >= hi || !uses(lines[j]) {
 			out = append(out, lines[j])
 			continue
 		}
 		t := strings.TrimSpace(lines[j])
 		if strings.HasPrefix(t, "return [") {
-			l := regexp.MustCompile(`\b`+regexp.QuoteMeta(name)+`\b,?\s*`).ReplaceAllString(lines[j], "")
+			l := lines[j]
+			for _, n := range names {
+				l = regexp.MustCompile(`\b`+regexp.QuoteMeta(n)+`\b,?\s*`).ReplaceAllString(l, "")
+			}
 			l = strings.Replace(l, ", ]", "]", 1)
 			out = append(out, l)
 			continue
@@ -75,10 +89,20 @@ func removeWithUses(lines []string, i, hi int, name string) []string {
 			return nil // would break a block structure
 		}
 		end := blockEnd(lines, j, hi)
+		for k := j; k <= end; k++ {
+			if m := declRe.FindStringSubmatch(lines[k]); m != nil {
+				names = append(names, m[2])
+			}
+			if m := ifLetRe.FindStringSubmatch(lines[k]); m != nil {
+				names = append(names, m[1])
+			}
+		}
 		j = end
 	}
 	return out
 }
+
+var ifLetRe = regexp.MustCompile(`^\s*if let ([a-z]+[0-9]+)\b`)
 
 var consumeRe = regexp.MustCompile(`<-\s*(q[0-9]+)\b`)
 var saveIfRe = regexp.MustCompile(`^\s*if (C0\.)?acct\.storage\.type\(at: [^)]*\) == nil \{\s*$`)
@@ -224,8 +248,14 @@ func skeletonKey(src string) string {
 	s := skeleton(src)
 	h := sha256.Sum256([]byte(s))
 	short := s
-	if len(short) > 160 {
-		short = short[:160] + "…"
+	if len(short) > 400 {
+		short = short[:400] + "…"
 	}
 	return hex.EncodeToString(h[:5]) + " " + short
+}
+
+// limited returns execution options with a computation limit: minimisation candidates may not
+// terminate (e.g. a loop whose increment was removed), so they run metered.
+func limited() *host.Options {
+	return &host.Options{Config: host.DefaultConfig, Comp: &host.Gauge{CompLimit: 200_000}, Mem: &host.Gauge{MemLimit: 256 << 20}}
 }
